@@ -23,8 +23,9 @@ def ae_io_parser(func: Callable[..., Any]) -> Callable[..., Any]:
             y = y0.array  # Convert y0 from Vars to np.ndarray
         else:
             y = y0
-        # the solver works on (and may return) its own array, never the caller's
-        y = np.array(y)
+        # the solver works on (and may return) its own array, never the caller's; in double precision, or a float32
+        # (or integer) start would have its residual, and with it the convergence test, evaluated in that type
+        y = np.array(y, dtype=np.float64)
 
         # Dispatch AE solvers and capture results
         sol = func(eqn, y, opt)
